@@ -61,7 +61,7 @@
 
     // ---- bit-channel stubs for the decoder side
     pub(crate) fn dec_bit_stub<R: RangeReader>(_s: &mut RangeDecoder<R>, prob: &mut u16) -> i32 {
-        crate::vk::ch_get(*prob as u32) as i32
+        crate::vk::ch_get(crate::vk::ch_dec_slot(prob as *mut u16 as usize)) as i32
     }
     pub(crate) fn dec_direct_stub<R: RangeReader>(_s: &mut RangeDecoder<R>, count: u32) -> i32 {
         crate::vk::ch_get(crate::vk::CH_DIRECT | count) as i32
